@@ -160,16 +160,34 @@ def main():
         Jcm = {(i, j): float(rng.uniform(-90, 90))
                for i in range(Nm) for j in range(i + 1, Nm)}
 
+        composite = (s % 4 == 2)
+
         def build_ag(nt, dt):
             tax = qr.TimeAxis(0.0, nt, dt)
             with qr.energy_units("1/cm"):
                 mols = []
                 for i in range(Nm):
                     m = qr.Molecule([0.0, float(en[i])])
+                    if composite:
+                        # a bath built from a list of components (overdamped
+                        # + underdamped); total reorganisation energy reorg[i]
+                        prm = [dict(ftype="OverdampedBrownian",
+                                    reorg=0.6 * float(reorg[i]),
+                                    cortime=float(cort[i]), T=Temp2,
+                                    matsubara=100),
+                               dict(ftype="UnderdampedBrownian",
+                                    reorg=0.4 * float(reorg[i]),
+                                    freq=300.0 + 40.0 * i,
+                                    # (gamma is an energy parameter)
+                                    gamma=(1.0 / float(cort[i])) / R.CM2INT,
+                                    T=Temp2)]
+                    else:
+                        prm = dict(ftype="OverdampedBrownian",
+                                   reorg=float(reorg[i]),
+                                   cortime=float(cort[i]), T=Temp2,
+                                   matsubara=100)
                     m.set_transition_environment(
-                        (0, 1), qr.CorrelationFunction(tax, dict(
-                            ftype="OverdampedBrownian", reorg=float(reorg[i]),
-                            cortime=float(cort[i]), T=Temp2, matsubara=100)))
+                        (0, 1), qr.CorrelationFunction(tax, prm))
                     mols.append(m)
                 agx = qr.Aggregate(mols)
                 for (i, j), v in Jcm.items():
@@ -185,7 +203,8 @@ def main():
         ag_f, ta_f = build_ag(2 * Ntb, dtb / 2)
         ham = ag.get_Hamiltonian()
         sbi = ag.get_SystemBathInteraction()
-        rp = dict(kind="aggregate", seed=ck.seed, system=s, N=Nm, T=Temp2)
+        rp = dict(kind="aggregate", seed=ck.seed, system=s, N=Nm, T=Temp2,
+                  composite_bath=bool(composite))
         with ck.guarded("redfield-rates", "aggregate", rp, rp):
             RRm = RedfieldRateMatrix(ham, sbi)
             K = numpy.array(RRm.data)
@@ -229,7 +248,7 @@ def main():
             raw_m = raw_t = 0.0
             for a in range(1, n):
                 for b in range(1, n):
-                    if hD[b] - hD[a] > 2e-3:        # a <- b downhill
+                    if hD[b] - hD[a] > 2e-3 and not composite:   # a <- b
                         w = hD[b] - hD[a]
                         val = 0.0
                         for site in range(Nm):
@@ -308,7 +327,7 @@ def main():
                     # on the shape of the spectral density
                     p = dict(ftype="UnderdampedBrownian", reorg=lam,
                              freq=float(rng.uniform(150, 500)),
-                             gamma=1.0 / tau)
+                             gamma=(1.0 / tau) / R.CM2INT)
                     withT = False
                 if withT:
                     p["T"] = 300.0
